@@ -800,8 +800,33 @@ def asOthers (req : Json) : R (List (Table Rat × Table Rat)) := do
   | none => pure []
   | some j => asList (fun p => do pure ((← asTable (← fld p "before")), (← asTable (← fld p "after")))) j
 
+/-- what a table carries besides IDs, grid, type and per-ID metadata (group metadata of both axes,
+    table id, dtype): opaque to the model, must read the same before and after -/
+def extraOf (t : Json) : String :=
+  match optFld t "extra" with
+  | some e => e.compress
+  | none => ""
+
+def extraSame (req : Json) : R Bool := do
+  let b ← fld req "table"
+  let a ← fld req "after"
+  let os : List Json := match optFld req "others" with
+    | some (.arr xs) => xs.toList
+    | _ => []
+  let okOthers ← os.mapM (fun p => do pure (extraOf (← fld p "before") == extraOf (← fld p "after")))
+  pure (extraOf b == extraOf a && okOthers.all id)
+
+def argSame (req : Json) : Bool :=
+  match optFld req "mapping_after", optFld req "mapping" with
+  | some a, some b => a.compress == b.compress
+  | _, _ => true
+
 def othersClause (others : List (Table Rat × Table Rat)) : Verdict :=
   chk "others-unchanged: every other live table keeps its IDs, grid and metadata" (othersUnchanged others)
+
+def extraClause (req : Json) : R Verdict := do
+  pure ((chk "frame: group metadata, table id and dtype of every live table unchanged" (← extraSame req)).and
+        (chk "add: the mapping handed in is not modified" (argSame req)))
 
 def handleAdd (req : Json) : R Json := do
   let others ← asOthers req
@@ -822,7 +847,7 @@ def handleAdd (req : Json) : R Json := do
   let mh : Bool := match arg.toAxis? with
     | some ax => holds (.add before m ax) (model (.add before m ax))
     | none => true
-  let v := v.and (othersClause others)
+  let v := (v.and (othersClause others)).and (← extraClause req)
   pure (answer v (sameResult mres obs) (resultToJson tableToJson mres) [("model_holds", .bool mh)])
 
 def handleDel (req : Json) : R Json := do
@@ -840,7 +865,7 @@ def handleDel (req : Json) : R Json := do
     | some e => firstClause [("del: only an unknown axis raises, with UnknownAxisError", arg == .bad && asErr e == .unknownAxis),
         ("del: refused call leaves the table unchanged", sameTable before after)]
   let mh := holds (.del before keys arg) (model (.del before keys arg))
-  let v := v.and (othersClause others)
+  let v := (v.and (othersClause others)).and (← extraClause req)
   pure (answer v (sameResult mres obs) (resultToJson tableToJson mres) [("model_holds", .bool mh)])
 
 def sameMapping (a : Except Err (Mapping Val)) (b : Except Err (List (Str × List (Str × String)))) : Bool :=
@@ -913,7 +938,7 @@ def handleCli (req : Json) : R Json := do
         ("cli: usable mapping files are accepted", err.isNone),
         ("frame: IDs, order, grid, type unchanged", frameSame before after),
         ("cli: table carries exactly the update the files describe", cliHolds before (mdOf (flat specS)) (mdOf (flat specO)) after)]
-  let v := v.and (othersClause others)
+  let v := (v.and (othersClause others)).and (← extraClause req)
   pure (answer v (sameResult mres obs) (resultToJson tableToJson mres) [("guarded", .bool guarded)])
 
 def handle (req : Json) : R Json := do
